@@ -32,7 +32,12 @@ class Composite(Contract):
     def f0(self, c): return DER(self.f0tag)(z3.IntVal(0), c.pre['x_data'][0])
     def ensures(self, c):
         D = ival(c.D)
-        if D is None: raise Exception('composite contracts are verified in unrolled mode only')
+        if D is None:
+            # symbolic D (this contract used as a CALLEE by an all-D caller): the postcondition of the all-D contract of the same function
+            from . import composites_sym
+            k = self.qual.split('.')[-1] + '@allD'
+            if k in composites_sym.REG: return composites_sym.REG[k].ensures(c)
+            raise Exception('composite contracts are verified in unrolled mode only')
         x = c.pre['x_data']; xs = [x[z3.IntVal(i)] for i in range(D)]; o = c.outarr()
         exp = self.expected(xs, self.f0(c))
         return [('out[%d] = coefficient %d of f(x(t)) (spec interpreter on solver terms)' % (d, d), o[z3.IntVal(d)] == exp[d]) for d in range(D)]
